@@ -276,10 +276,82 @@ def r3_resample(ctx):
               cells[0][2] if cells else fn, None if ok else [(repr(c[0]), repr(c[1])) for c in cells])
 
 
+def r4_rescale(ctx):
+    """psd.rescale conserves the mean-square content of every output band by construction: it integrates the input PSD band by band into a
+    cumulative mean-square curve over the input band EDGES, interpolates that curve at the output band edges and divides the difference by the
+    output band width.  Decided on values: the cumulative curve is built from (upper - lower edge) * PSD and tabulated at exactly those edges;
+    both interpolations use that table; mean square = upper - lower; PSD = mean square / (the same) band width; with `extendends` the outermost
+    output edges are clamped to the outermost input band edges (not to the centre frequencies - half a band would be lost) and restored
+    afterwards with the mean square recomputed from the PSD."""
+    from .sem import Sem, place
+    fn = ctx.src.func(PSD, "rescale")
+
+    def cond(test, ev):
+        t = utext(test)
+        table = {"freqisNone": True, "frangeisNone": True, "extendends": True, "oned": False, "np.all(Df==Df[0])": True,
+                 "P.ndim==1": False, "P.shape[0]==1": False, "FL[0]<FLin[0]": True, "FU[-1]>FUin[-1]": True}
+        return table.get(t)
+
+    def call(node, ev):
+        d = dotted(node.func) or ""
+        if d == "get_freq_oct":
+            return (F.sym("Wctr"), F.sym("FL"), F.sym("FU"))
+        if d == "_set_frange":
+            return F.sym("frange")
+        return NotImplemented
+
+    S = Sem(ctx, fn, cond=cond, call=call, env={"F": F.sym("F"), "P": F.sym("P")}, loop_once=True)
+    E = S.E
+    # input band edges (uniform spacing arm) and widths
+    ok = S.same(S.env("FLin"), "F - np.diff(F)[0] / 2") and S.same(S.env("FUin"), "F + np.diff(F)[0] / 2")
+    ctx.check(ok, "rescale (uniform input spacing): input band edges are centre -/+ half the spacing", fn, None if ok else [repr(S.env("FLin")), repr(S.env("FUin"))])
+    FLin, FUin = S.env("FLin"), S.env("FUin")
+    if any(x is None or is_unknown(x) for x in (FLin, FUin)):
+        ctx.error("rescale: input band edges", fn)
+        return
+    ca, Fa = S.env("ca"), S.env("Fa")
+    want_ca = E("np.vstack((np.zeros((1, cols)), np.cumsum((FUin - FLin).reshape(-1, 1) * P, axis=0)))")
+    ok = S.same(ca, want_ca) and S.same(Fa, "np.hstack((FLin[0], FUin))")
+    ctx.check(ok, "rescale: the cumulative mean square is sum((upper - lower edge) * PSD) starting from 0 and is tabulated at the input band edges "
+                  "[first lower edge, every upper edge]", fn, None if ok else {"ca": repr(ca), "Fa": repr(Fa)})
+    # clamping of the outermost output edges
+    cl = {(repr(ix)): (val, st) for ix, val, st in S.cells("FL")}
+    cu = {(repr(ix)): (val, st) for ix, val, st in S.cells("FU")}
+    fl_cells = S.cells("FL")
+    fu_cells = S.cells("FU")
+    ok = len(fl_cells) == 2 and len(fu_cells) == 2 and S.same(fl_cells[0][0], "0") and S.same(fl_cells[0][1], "FLin[0]") \
+        and S.same(fu_cells[0][0], "-1") and S.same(fu_cells[0][1], "FUin[-1]")
+    ctx.check(ok, "rescale (extendends): an output band reaching beyond the data is clamped to the outermost input band EDGE (lower edge of the first "
+                  "band, upper edge of the last) while the mean square is computed", fl_cells[0][2] if fl_cells else fn,
+              None if ok else {"FL stores": [(repr(i), repr(v)) for i, v, _ in fl_cells], "FU stores": [(repr(i), repr(v)) for i, v, _ in fu_cells]})
+    ok = len(fl_cells) == 2 and len(fu_cells) == 2 and S.same(fl_cells[1][0], "0") and S.same(fl_cells[1][1], S.env("fl")) and S.same(S.env("fl"), "FL[0]") \
+        and S.same(fu_cells[1][0], "-1") and S.same(fu_cells[1][1], S.env("fu")) and S.same(S.env("fu"), "FU[-1]")
+    ctx.check(ok, "rescale (extendends): the nominal outer edges are saved before and restored after the clamp", fl_cells[1][2] if len(fl_cells) > 1 else fn)
+    # interpolation of the cumulative curve at the output edges
+    ip = S.calls("np.interp")
+    ok = len(ip) == 2
+    if ok:
+        a, b = place(ip[0][1], ip[0][2], ["x", "xp", "fp"]), place(ip[1][1], ip[1][2], ["x", "xp", "fp"])
+        ok = S.same(a["x"], "FL") and S.same(b["x"], "FU") and S.same(a["xp"], Fa) and S.same(b["xp"], Fa) and S.same(a["fp"], b["fp"]) \
+            and S.same(a["fp"], F.fn("idx", need(ca), S.ev._index_value(ast.parse("x[:, i]", mode="eval").body.slice)))
+    ctx.check(ok, "rescale: the same cumulative curve, over the same edge table, is interpolated at the lower and at the upper output edges", ip[0][3] if ip else fn)
+    cal_c, cau_c = S.cells("cal"), S.cells("cau")
+    ok = len(cal_c) == 1 and len(cau_c) == 1 and len(ip) == 2 and S.same(cal_c[0][1], S.ev.ev(ip[0][3])) and S.same(cau_c[0][1], S.ev.ev(ip[1][3]))
+    ctx.check(ok, "rescale: cal holds the curve at the lower edges, cau at the upper edges", cal_c[0][2] if cal_c else fn)
+    ns = S.ret()
+    # psdoct (before the edges are restored) = (cau - cal) / (FU - FL); afterwards ms = psdoct * (FU - FL)
+    ok = isinstance(ns, tuple) and len(ns) == 4 and S.same(ns[0], "(cau - cal) * (1 / (FU - FL).reshape(-1, 1))") \
+        and S.same(ns[3], "((cau - cal) * (1 / (FU - FL).reshape(-1, 1))) * (FU - FL).reshape(-1, 1)") and S.same(ns[2], F.fn("call:np.sum", need(ns[3]), F.fn("kw:axis", F.const(0)))) \
+        and S.same(ns[1], "Wctr")
+    ctx.check(ok, "rescale: band PSD = (curve at upper edge - curve at lower edge) / band width; the reported mean square is PSD * nominal band width and its "
+                  "sum is the returned total", S.ret_node(), None if ok else [repr(x)[:200] for x in (ns if isinstance(ns, tuple) else [ns])])
+
+
 RULES = [
     ("C19-R1", r1_area, 8),
     ("C19-R2", r2_interp, 4),
     ("C19-R3", r3_resample, 11),
+    ("C19-R4", r4_rescale, 7),
 ]
 LEVEL = "other"
 EXPLANATION = ("Static: psd.area's general formula is the exact integral of the log-log interpolant (symbolic identity), the special case is its s -> -1 limit and is "
@@ -288,8 +360,9 @@ EXPLANATION = ("Static: psd.area's general formula is the exact integral of the 
 MANIFEST = {
     "text": "Thin partial claim decided statically: (R1) psd.area segment formulas (exact integral, limit, selector centred on the singularity, full coverage and "
             "accumulation); (R2) psd.interp log/exp pairing and in-range mask; (R3) dsp.resample keeps samples M + q k of the filter output, pads M/2 both sides, "
-            "restores the mean, reduces p/q by gcd. Not decided: rescale's conservation, resample's interpolation accuracy, fixtime's nearest-sample semantics "
-            "(value-level).",
+            "restores the mean, reduces p/q by gcd; (R4) psd.rescale's band mean squares are differences of one cumulative curve tabulated at the input band "
+            "edges, divided by the same band widths, with the outer edges clamped to input band edges and restored. Not decided: resample's interpolation accuracy, "
+            "fixtime's nearest-sample semantics, get_freq_oct band tables (value-level).",
     "note": "Trusted: CPython ast; verifier/e2_formula.py (exp/log, series); scipy interp1d / lfilter semantics.",
     "technique": "static formula extraction with exact symbolic integral/limit check; slice-composition index arithmetic",
 }
